@@ -15,6 +15,7 @@ int vp_evbuffer_freed;
 int clean_exit;
 
 const char *vp_in_lines[VP_MAXIN];
+unsigned vp_in_len[VP_MAXIN];      /* length of each queued line (0: use strlen) */
 unsigned vp_in_count, vp_in_next;
 int vp_read_result = 1;
 
@@ -105,8 +106,10 @@ char *evbuffer_readln(struct evbuffer *b, size_t *n_read_out, enum evbuffer_eol_
     (void)b; (void)eol_style;
     if (vp_in_next >= vp_in_count || vp_in_next >= VP_MAXIN)
         return NULL;
+    len = vp_in_len[vp_in_next];
     src = vp_in_lines[vp_in_next++];
-    len = strlen(src);
+    if (len == 0)
+        len = strlen(src);
 #ifdef VP_LINE_ALLOC
     out = malloc(VP_LINE_ALLOC);
     VP_ASSUME(out != NULL);
